@@ -80,6 +80,11 @@ def _mask(t, v):
     return v & m if m is not None and isinstance(v, int) else v
 
 
+class Obj(dict):
+    """a struct object handed to the interpreted code by pointer or reference: `p->f` / `r.f` read the entry f"""
+    __hash__ = object.__hash__
+
+
 class Mini:
     def __init__(self, db, hook=None, members=None, budget=20000, typed=None, member_store=False, c_ints=False):
         self.db = db
@@ -127,7 +132,10 @@ class Mini:
             if e.dk == 'enum':
                 return e.cv
             if e.n in env:
-                return env[e.n]
+                v_ = env[e.n]
+                if isinstance(v_, Ref) and not ('*' in (e.t or '')):
+                    return v_.env.get(v_.name, 0)          # a reference parameter bound to the caller's variable
+                return v_
             if self._typed(e) is not None:
                 return self._typed(e)
             if e.dk == 'param' and ('&' in (e.t or '') or 'struct' in (e.ct or '') or 'Stream' in (e.t or '')):
@@ -139,6 +147,16 @@ class Mini:
                 return self.members[t]
             if self._typed(e) is not None:
                 return self._typed(e)
+            b = e.child('base')
+            if b is not None and e.n:
+                try:
+                    bv = self.ev(b, env)
+                except AnalysisBroken:
+                    bv = None
+                if isinstance(bv, Ref):
+                    bv = bv.env.get(bv.name)
+                if isinstance(bv, Obj) and e.n in bv:
+                    return bv[e.n]
             raise AnalysisBroken('mini-interpreter: unbound member `%s`' % t)
         if k == 'ParenExpr':
             return self.ev(e.c[0], env)
@@ -252,14 +270,17 @@ class Mini:
             if t.k != 'DeclRefExpr':
                 raise AnalysisBroken('mini-interpreter: store to `%s` (inputs are read-only)' % t.text()[:40])
             r = self.ev(e.child('rhs'), env)
+            tgt_env, tgt_name = env, t.n
+            if isinstance(env.get(t.n), Ref) and '*' not in (t.t or ''):
+                tgt_env, tgt_name = env[t.n].env, env[t.n].name        # write through a reference parameter
             if e.op != '=':
-                cur = env[t.n]
+                cur = tgt_env[tgt_name]
                 import operator as O
                 if isinstance(cur, Ptr):
                     r = Ptr(cur.arr, cur.i + (r if e.op == '+=' else -r))
                 else:
                     r = {'+=': O.add, '-=': O.sub, '*=': O.mul, '|=': O.or_, '&=': O.and_, '^=': O.xor, '<<=': O.lshift, '>>=': O.rshift}[e.op](cur, r)
-            env[t.n] = r
+            tgt_env[tgt_name] = r
             return r
         if k in ('CallExpr', 'CXXMemberCallExpr'):
             args = [self.ev(a, env) for a in e.args]
@@ -269,6 +290,12 @@ class Mini:
             g = [x for x in (self.db.fn(e.callee, required=False, all=True) or []) if x.body is not None] if e.callee else []
             if len(g) == 1 and k == 'CallExpr':
                 en = {p['n']: a for p, a in zip(g[0].params, args)}
+                for p, a_node in zip(g[0].params, e.args):
+                    a0 = _strip_casts(a_node)
+                    if '&' in (p.get('t') or '') and 'const' not in (p.get('t') or '') and a0 is not None and a0.k == 'DeclRefExpr' and a0.dk in ('local', 'param'):
+                        cur_ = env.get(a0.n)
+                        en[p['n']] = cur_ if isinstance(cur_, Ref) else Ref(env, a0.n)     # non-const reference parameter: the callee writes the caller's variable
+                        env.setdefault(a0.n, 0)
                 try:
                     self.run(g[0].body, en)
                 except Return as rr:
